@@ -1247,7 +1247,8 @@ class SetGen(Gen):
                 opts.append(lambda: dev.add(S("deviate", "delete").add(S("units", expl("units")[0].arg))))
             if not n.findall("default") and n.find("mandatory") is None and not in_choice:
                 opts.append(lambda: dev.add(S("deviate", "add").add(S("mandatory", "true"))))
-            if n.find("mandatory") is not None:
+            if n.find("mandatory") is not None and (n.type_dflt is None or eff.accepts(n.type_dflt)):
+                # (without mandatory the default of the type applies: it has to fit the leaf's own restriction)
                 opts.append(lambda: dev.add(S("deviate", "replace").add(S("mandatory", "false"))))
             if not expl("default"):
                 def newtype():
@@ -1787,8 +1788,9 @@ class FlattenEquiv:
             if oks != okf:
                 # the same verdict from the flattening that emulates a listed finding?
                 for (e2, cset), items in by.items():
-                    if e2 == ei and cset not in ("s", "f") and \
-                            [x.split("/")[0] for m, x in items if m[0] == "load"] == [x.split("/")[0] for x in ls]:
+                    first_bad = lambda l: next((i for i, x in enumerate(l) if x.split("/")[0] != "0"), None)      # noqa: E731
+                    if e2 == ei and cset not in ("s", "f") and not oks and \
+                            first_bad([x for m, x in items if m[0] == "load"]) == first_bad(ls):
                         tag = next(m[3] for m, x in items if m[0] == "schema")
                         return (tag, "features %d: the structured set is rejected exactly as the flattening that emulates the "
                                 "listed finding: %s" % (ei, ls))
